@@ -93,7 +93,7 @@ CLAIMS['C02'] = dict(
     text='Unbounded proof: the mapping loop of decode_regular equals the reference reading of the format (per-line column reset, running source / line / column / name '
          'accumulators, 1/4/5 fields, empty lines and segments, range bits by segment position; indices computed in mathematical integers); the tail of decode_regular (null '
          'sources, numeric names, non-string file, debug_id over debugId, source root, ignore list) against the statement; decode_common dispatch (sections -> index, '
-         'x_facebook_sources -> Hermes, else regular); decode_index builds one section per entry of the `sections` array -- at the entry's offset, with its url, and an embedded map of the kind the dispatch rule gives for the entry's document -- keeps file and the RAM-bundle extension keys, and sorts the sections by offset; SourceMap::new returns a sorted permutation; the '
+         'x_facebook_sources -> Hermes, else regular); decode_index builds one section per entry of the `sections` array -- at the offset of the entry, with its url, and an embedded map of the kind the dispatch rule gives for the document of the entry -- keeps file and the RAM-bundle extension keys, and sorts the sections by offset; SourceMap::new returns a sorted permutation; the '
          'sourceRoot joining rule (prefix_source / set_source_root / get_source against prefix_spec). PARTIAL: the six `let` lines that unpack the raw document are checked '
          'textually only; decode_hermes is bounded only.',
     note=_TB + 'serde_json assumed.',
